@@ -299,6 +299,29 @@ where B: StarkField + ExtensibleField<2> + ExtensibleField<3> + 'static, H: Elem
     ce
 }
 
+/// Tiny proofs whose transition constraints have a high degree, so that the constraint-evaluation blowup (= z.len() in
+/// acc_column) is 32 or 64: acc_column's batch-local index `z[i % z.len()]` is only right while every batch is a multiple
+/// of z.len() (seeded change C14-r2m2 lowers the minimum batch size to 16).  The window is narrow: the batch size
+/// ce_domain / npo2(T) must lie in [min batch, z.len()), i.e. trace length 8 <-> 9..16 threads, 16 <-> 17..32, 32 <-> 33..64
+/// (blowup 64 also a quarter of the pool size).
+fn dig_high_degree_proofs() -> Vec<usize> {
+    let mut ces = Vec::new();
+    let o = |q, b, e, f, r| ProofOptions::new(q, b, 0, e, f, r);
+    let cases: Vec<(&str, Spec, ProofOptions)> = vec![
+        ("hd-n8-d20-b32", Spec::simple(2, 3, 20, 21), o(4, 32, FieldExtension::None, 4, 7)),
+        ("hd-n16-d20-b32", Spec::simple(1, 4, 20, 22), o(4, 32, FieldExtension::None, 2, 15)),
+        ("hd-n32-d33-b32", Spec::simple(2, 5, 33, 23), o(4, 32, FieldExtension::Quadratic, 8, 31)),
+        ("hd-n8-d40-b64", Spec::simple(1, 3, 40, 24), o(4, 64, FieldExtension::None, 4, 7)),
+        ("hd-n16-d40-b64", Spec::simple(2, 4, 40, 25), o(4, 64, FieldExtension::None, 4, 15)),
+        ("hd-n64-d18-b32", Spec::simple(1, 6, 18, 26), o(4, 32, FieldExtension::None, 4, 31)),
+    ];
+    for (id, spec, opts) in &cases {
+        ces.push(prove_one::<F64, Blake3_256<F64>>(&format!("f64.blake3.{id}"), spec, opts));
+    }
+    ces.push(prove_one::<F128, Blake3_256<F128>>("f128.blake3.hd-n8-d20-b32", &cases[0].1, &cases[0].2));
+    ces
+}
+
 fn dig_proofs(scale: usize) {
     let mut ces: Vec<usize> = Vec::new();
     let o = |q, b, g, e, f, r| ProofOptions::new(q, b, g, e, f, r);
@@ -323,6 +346,7 @@ fn dig_proofs(scale: usize) {
         ces.push(prove_one::<F128, Blake3_256<F128>>(&format!("f128.blake3.{id}"), spec, opts));
         if scale > 1 { ces.push(prove_one::<F128, ToyHasher<F128>>(&format!("f128.toy.{id}"), spec, opts)); }
     }
+    ces.extend(dig_high_degree_proofs());
     ces.sort(); ces.dedup();
     println!("I ce_domain_sizes {:?}", ces);
 }
@@ -361,6 +385,7 @@ fn kernels(seed: u64) {
     dig_merkle::<ToyHasher<F64>>("toy", 12);
     dig_merkle::<Blake3_256<F64>>("blake3", 11);
     dig_matrix::<F64, Blake3_256<F64>>("f64.blake3", &mut r, 1);
+    let _ = dig_high_degree_proofs();
 }
 
 // ------------------------------------------------------------------------------------------------ spy hasher (Merkle tasks)
